@@ -367,6 +367,21 @@ package pub
 
 //@ func (*pub.sideEffectActor).InboxForwarding
 //@ params a, c, inboxIRI, activity
+//@ modifies gExists, gOwnsValue, gNCol, nFilter, nCreate, lastCreated, nOwnsYes
+//@ [C17] at call pub.Database.Exists#1: ghost gExists = $res0 && $res1 == nil
+//@ [C17] at call pub.Database.Exists#1: ghost gOwnsValue = false
+//@ [C17] at call pub.Database.Exists#1: ghost gNCol = 0
+//@ [C17] at call pub.FederatingProtocol.MaxInboxForwardingRecursionDepth#1: ghost gNCol = len(colIRIs)
+//@ [C17] at call (*pub.sideEffectActor).hasInboxForwardingValues#1: ghost gOwnsValue = $res0 && $res1 == nil
+//@ [C17] ensures recorded_as_seen_at_most_once: nCreate <= old(nCreate) + 1
+//@ [C17] ensures recorded_once_on_first_sight_never_again: result == nil ==> nCreate == old(nCreate) + (gExists ? 0 : 1)
+//@ [C17] ensures what_is_recorded_is_the_activity: nCreate == old(nCreate) + 1 ==> lastCreated == activity
+//@ [C17] ensures repeated_delivery_is_not_forwarded: result == nil && gExists ==> nDeliver == old(nDeliver) && nFilter == old(nFilter)
+//@ [C17] ensures forwarded_only_if_the_three_conditions_hold: nDeliver != old(nDeliver) ==> !gExists && gNCol > 0 && gOwnsValue
+//@ [C17] ensures forwarded_at_most_once: nDeliver <= old(nDeliver) + 1 && nFilter <= old(nFilter) + 1
+//@ [C17] ensures forwarded_if_the_three_conditions_hold: result == nil && !gExists && gNCol > 0 && gOwnsValue ==> nDeliver == old(nDeliver) + 1 && nFilter == old(nFilter) + 1
+//@ [C17] at call pub.FederatingProtocol.FilterForwarding#1: assert application_filter_sees_the_owned_collections_and_the_activity: $arg2 == colIRIs && $arg3 == activity
+//@ [C17] at call (*pub.sideEffectActor).deliverToRecipients#1: assert forwards_the_received_activity_unchanged: $arg3 == activity && $arg2 == inboxIRI && props == old(props) && ASH == old(ASH) && ASHP == old(ASHP) && idval == old(idval) && hrefval == old(hrefval)
 //@ [C11] requires a != nil && a.db != nil && a.s2s != nil && a.common != nil && inboxIRI != nil && activity != nil
 //@ [C09] requires unlocked: held == emp
 //@ [C09] ensures unlocked: held == emp
@@ -443,6 +458,10 @@ package pub
 
 //@ func (*pub.sideEffectActor).deliverToRecipients
 //@ params a, c, boxIRI, activity, recipients
+//@ [C17] ensures one_batch: nDeliver <= old(nDeliver) + 1 && (result == nil ==> nDeliver == old(nDeliver) + 1)
+//@ [C17] at call streams.Serialize#1: assert serialises_the_activity_given: $arg0 == activity
+//@ [C17] at call pub.Transport.BatchDeliver#1: assert to_the_recipients_given: $arg3 == recipients && $arg2 == b
+//@ [C17] at call encoding/json.Marshal#1: assert marshals_that_serialisation: $arg0.pl == m
 //@ [C11] requires a != nil && a.common != nil && activity != nil
 //@ [C07] requires authed: authed
 //@ modifies eff, appCalls, nDeliver, leak
@@ -480,6 +499,20 @@ package pub
 
 //@ func (*pub.sideEffectActor).hasInboxForwardingValues
 //@ params a, c, inboxIRI, val, maxDepth, currDepth
+//@ modifies nOwnsYes
+//@ [C17] at call pub.Database.Owns#*: ghost nOwnsYes = nOwnsYes + ($res0 && $res1 == nil ? 1 : 0)
+//@ [C17] ensures depth_limit_respected: maxDepth > 0 && currDepth >= maxDepth ==> !result0 && result1 == nil && eff == old(eff) && appCalls == old(appCalls)
+//@ [C17] ensures true_only_after_the_database_owned_a_value: nOwnsYes >= old(nOwnsYes) && (result0 ==> result1 == nil && nOwnsYes > old(nOwnsYes)) && (!result0 ==> nOwnsYes == old(nOwnsYes))
+//@ [C17] ensures only_reads: nCreate == old(nCreate) && nFilter == old(nFilter) && nUpdate == old(nUpdate) && lastCreated == old(lastCreated)
+//@ [C17] ensures values_untouched: ASH == old(ASH) && ASHP == old(ASHP) && props == old(props) && idval == old(idval) && hrefval == old(hrefval)
+//@ loop 1 [C17] invariant owned_hits_only_grow: nOwnsYes == old(nOwnsYes)
+//@ loop 1 [C17] invariant only_reads: nCreate == old(nCreate) && nFilter == old(nFilter) && nUpdate == old(nUpdate) && lastCreated == old(lastCreated) && ASH == old(ASH) && ASHP == old(ASHP) && props == old(props) && idval == old(idval) && hrefval == old(hrefval)
+//@ loop 2 [C17] invariant owned_hits_only_grow: nOwnsYes == old(nOwnsYes)
+//@ loop 2 [C17] invariant only_reads: nCreate == old(nCreate) && nFilter == old(nFilter) && nUpdate == old(nUpdate) && lastCreated == old(lastCreated) && ASH == old(ASH) && ASHP == old(ASHP) && props == old(props) && idval == old(idval) && hrefval == old(hrefval)
+//@ loop 3 [C17] invariant owned_hits_only_grow: nOwnsYes == old(nOwnsYes)
+//@ loop 3 [C17] invariant only_reads: nCreate == old(nCreate) && nFilter == old(nFilter) && nUpdate == old(nUpdate) && lastCreated == old(lastCreated) && ASH == old(ASH) && ASHP == old(ASHP) && props == old(props) && idval == old(idval) && hrefval == old(hrefval)
+//@ loop 4 [C17] invariant owned_hits_only_grow: nOwnsYes == old(nOwnsYes)
+//@ loop 4 [C17] invariant only_reads: nCreate == old(nCreate) && nFilter == old(nFilter) && nUpdate == old(nUpdate) && lastCreated == old(lastCreated) && ASH == old(ASH) && ASHP == old(ASHP) && props == old(props) && idval == old(idval) && hrefval == old(hrefval)
 //@ [C11] requires a != nil && a.db != nil && a.common != nil && val != nil
 //@ [C09] requires unlocked: held == emp
 //@ [C09] ensures unlocked: held == emp
